@@ -264,3 +264,22 @@ def run(ctx: Ctx, rep: Report, tier: str):
     from rules.C10 import C10 as _C10
     alias(rep, ["C10.T7"], "C07.R9", "a download recorded before a crash is reused after the restart only for the content it came from: the temp-file name is a function of "
           "the side's current hash and path (C10.T7)", 2, lambda: _C10(ctx, rep).t7())
+    alias(rep, ["C06.R2"], "C07.R10", "a crash right after a rejected cursor was replaced repeats the walk: the fresh cursor is never durable before the walk obligation is "
+          "(C06.R2)", 2, lambda: _c06.r2())
+    from rules.C06 import run as _c06run
+    rep.rule("C07.R11", "a stored cursor survives a restart whatever its value: it is discarded only when absent (`is None`), never because it is falsy (C06.R3b)", 3)
+    em7 = ctx.prog.cls("EventManager")
+    for f7 in em7.methods.values():
+        for n7 in ctx.own_nodes(f7):
+            tests7 = []
+            if isinstance(n7, (ast.If, ast.While, ast.IfExp)):
+                tests7.append(n7.test)
+            elif isinstance(n7, ast.BoolOp):
+                tests7 += n7.values
+            elif isinstance(n7, ast.UnaryOp) and isinstance(n7.op, ast.Not):
+                tests7.append(n7.operand)
+            for t7 in tests7:
+                if pat.match("self.cursor", t7) is not None:
+                    rep.violation("C07.R11", "%s|truthiness" % short(f7.qname), ctx.line(f7, n7), "`self.cursor` is tested for truthiness: a legitimate falsy cursor is thrown away after a restart")
+            if isinstance(n7, ast.Compare) and len(n7.ops) == 1 and pat.match("self.cursor", n7.left) is not None:
+                rep.check("C07.R11", "%s|%s" % (short(f7.qname), ast.unparse(n7)), ctx.line(f7, n7), isinstance(n7.ops[0], (ast.Is, ast.IsNot, ast.Eq, ast.NotEq)), "identity / equality test", "cursor compared by order")
